@@ -13,8 +13,8 @@
        - an IndexOperator carries its index tuple; if `unique_indices` is False (the constructor
          forces True unless some entry is an integer array) it has an indexed axis, and when it has
          exactly one and all leaves share one shape: that entry is an integer array, the axis
-         exists in the shape, and THE INPUT PYTREE HAS A LEAF (see `empty_pytree_index_raises`:
-         on the empty pytree `(P.T @ P).reduce()` raises in the model - and in the real code).
+         exists in the shape, and the input pytree has a leaf (stronger than needed since the
+         fix of TransposeIndexRule for the empty pytree: see `empty_pytree_index_no_longer_raises`).
    Fuel: `fuel_for e = weight e`, the nesting measure in which a composition counts one level and a
    sum / block container two; reduce() never makes an operator heavier.  Inside one composition the
    while loop of AlgebraicReductionRule runs at most phi(ops, index) =
@@ -198,13 +198,12 @@ Example params_needed_index_array :
   wfo bad_index_int = true /\ prims_okb bad_index_int = true /\ params_okb bad_index_int = false /\
   red 5 default_order bad_index_int = Err AssertionError.
 Proof. vm_compute. auto. Qed.
-(* THE PRINCIPLED EXCLUSION: a non-unique IndexOperator on the empty pytree.  Such an object can be
-   constructed (IndexOperator(jnp.array([0, 0]), in_structure=())), and (P.T @ P).reduce() raises:
-   in the model at `shapes.pop()` (Err IndexError), in the real code one line earlier
-   (out_promoted_dtype of no leaves: ValueError).  params_ok excludes it by asking for a leaf. *)
+(* An index operator on the EMPTY pytree: before fix 2d6bc32 (`len(shapes) != 1` -> NoReduction) the real
+   `(P.T @ P).reduce()` raised ValueError there (out_promoted_dtype of no leaves); now the rule does not
+   fire and reduce returns the composition.  params_ok still asks for a leaf (harmless: stronger than needed). *)
 Definition Pempty : op Z := Prim 2 CIndex sE sE (PIndex false [IArr [0%Z; 0%Z]]).
 Definition bad_index_empty : op Z := Comp 1 [Wrap 3 WTranspose Pempty; Pempty].
-Example empty_pytree_index_raises :
+Example empty_pytree_index_no_longer_raises :
   wfo bad_index_empty = true /\ prims_okb bad_index_empty = true /\ params_okb bad_index_empty = false /\
-  red 5 default_order bad_index_empty = Err IndexError.
-Proof. vm_compute. auto. Qed.
+  exists e', red 5 default_order bad_index_empty = Ok e'.
+Proof. vm_compute. repeat split; eauto. Qed.
